@@ -2,3 +2,4 @@ pub mod val;
 pub mod probe;
 pub mod build;
 pub mod exec;
+pub mod hooks;
